@@ -9,7 +9,10 @@
      deep1-3 depth 2: one slot of the outer element holds a (narrow) structural element,
              alone or followed by a closing run
      pairs / triples   two / three narrow top-level elements / runs in sequence
-     symbols every character of the symbol / operator / accent tables as text, operand, attribute
+     symbols every character of the symbol / operator / accent tables as text, operand, attribute,
+             and inside the run that closes a malformed radical (before and after the closer)
+     The run that follows the trees of the other parts mixes a mapped symbol, plain characters and
+     the closer, so that positions in the raw and in the mapped text differ.
    SpecBuild: a bottom-up tree builder for `tlc -simulate` (deeper, random trees): stk is a stack of
              contents; every content of the stack is checked as a tree of its own.           *)
 EXTENDS Omml
@@ -32,9 +35,12 @@ Is(ps) == (ps \cap Part) # {} \/ "all" \in Part
 TextsWide == {<<>>, <<"a">>, <<"(">>, <<")">>, <<"U+03B1">>, <<WS>>}
              \cup (IF Thorough THEN {<<"a", ")">>, <<"[">>, <<"]">>, <<"{">>, <<"}">>, <<"(", WS>>} ELSE {})
 TextsNarrow == {<<"(">>, <<")">>} \cup (IF Thorough THEN {<<"a">>} ELSE {})
-Closing == {<<>>, << R(<<"a", ")">>) >>}
+\* the closing run mixes a mapped symbol, plain characters and the closer: the closer's position in
+\* the MAPPED text differs from its position in the raw text
+MixedClose == R(<<"U+03B1", "a", ")", "b">>)
+Closing == {<<>>, << MixedClose >>}
            \cup (IF Thorough THEN {<< R(<<")">>), R(<<")">>) >>, << R(<<"]", ")">>) >>} ELSE {})
-Closing2 == {<<>>, << R(<<"a", ")">>) >>}
+Closing2 == {<<>>, << MixedClose >>}
 
 Contents(T) == {<<>>} \cup {<<R(t)>> : t \in T}
 DupSlots == { << <<R(<<"a">>)>>, <<R(<<"b">>)>> >>, << <<R(<<"(">>)>>, <<R(<<")">>)>> >> }
@@ -117,6 +123,12 @@ Symbols == IF ~Is({"symbols"}) THEN {} ELSE
     \cup {<<[k |-> "nary", chr |-> Val(a), sub |-> << <<R(<<a>>)>> >>, sup |-> <<>>, e |-> << <<R(<<"x">>)>> >>]>> : a \in SymChars}
     \cup {<<[k |-> "acc", chr |-> Val(a), e |-> << <<R(<<a>>)>> >>]>> : a \in SymChars}
     \cup {<<[k |-> "d", beg |-> Val(a), end |-> Val(a), es |-> << <<R(<<"x">>)>> >>]>> : a \in SymChars}
+    \* malformed radical (both bracket kinds, with / without degree) continued by a run that holds
+    \* the symbol before and after the closer
+    \cup {<<[k |-> "rad", deg |-> dg, e |-> << <<R(<<b>>)>> >>], R(<<a, "+", a, Closer[b], a>>)>> :
+             a \in SymChars, b \in {"(", "["}, dg \in {<<>>, << <<R(<<"3">>)>> >>}}
+    \cup {<<[k |-> "f", num |-> << <<[k |-> "rad", deg |-> <<>>, e |-> << <<R(<<b>>)>> >>]>> >>,
+                        den |-> << <<R(<<a, Closer[b], "x">>)>> >>]>> : a \in SymChars, b \in {"(", "["}}
 
 Universe == Symbols \cup
     {<<n>> \o c : n \in Wide, c \in Closing}
@@ -134,7 +146,7 @@ Inv_Shape == Total(Conv(tree)) => Shape(tree, Conv(tree))
 Inv_Balance == Total(Conv(tree)) => Balance(tree, Conv(tree))
 
 (* ---- SpecBuild: random deeper trees for -simulate ---- *)
-BTexts == TextsWide \cup {<<"[">>, <<"]">>, <<"x", "U+2264", "b">>}
+BTexts == TextsWide \cup {<<"[">>, <<"]">>, <<"x", "U+2264", "b">>, <<"U+03B1", ")", "b">>, <<"U+2264", "x", "]">>}
 Top2 == stk[Len(stk)]
 Below(k) == SubSeq(stk, 1, Len(stk) - k)
 \* replace the k top contents by one content holding node n appended to the content below them
